@@ -10,7 +10,8 @@
 (***************************************************************************)
 EXTENDS YEdit, YDocGen, Json, CSV, IOUtils, SequencesExt
 
-CONSTANTS EditDepth, UseCurated
+CONSTANTS EditDepth, UseCurated,
+          AliasOps      \* TRUE: alias_nodes events join the edit vocabulary (MC_Edit_alias.cfg)
 VARIABLES phase, doc0, cur, hist
 
 evars == <<doc, open, fresh, phase, doc0, cur, hist>>
@@ -72,19 +73,33 @@ PathVocab(d) ==
   \cup {<<Seg("KEY", "zz"), Seg("KEY", "y"), Seg("INDEX", "1")>>, <<Seg("KEY", "zz"), Seg("INDEX", "1"), Seg("KEY", "y")>>,
         <<Seg("MATCH_ALL", ""), Seg("INDEX", "0")>>, <<Seg("TRAVERSE", ""), Seg("KEY", "a")>>}
 Values == {S("int", "7"), S("str", "zz"), S("float", "2.5"), S("bool", "true")}
-Events(d) == {[op |-> "set_must", segs |-> p, t |-> x.t, v |-> x.v] : p \in PathVocab(d), x \in Values}
-             \cup {[op |-> "set_opt", segs |-> p, t |-> "str", v |-> "zz"] : p \in {q \in PathVocab(d) : Straight(q)}}
-             \cup {[op |-> "delete", segs |-> p, t |-> "", v |-> ""] : p \in PathVocab(d)}
+NoA == <<>>
+BaseEvents(d) == {[op |-> "set_must", segs |-> p, t |-> x.t, v |-> x.v, asegs |-> NoA, name |-> ""] : p \in PathVocab(d), x \in (IF AliasOps THEN {S("int", "7")} ELSE Values)}
+             \cup {[op |-> "set_opt", segs |-> p, t |-> "str", v |-> "zz", asegs |-> NoA, name |-> ""] : p \in {q \in PathVocab(d) : Straight(q) /\ ~AliasOps}}
+             \cup {[op |-> "delete", segs |-> p, t |-> "", v |-> "", asegs |-> NoA, name |-> ""] : p \in PathVocab(d)}
+\* alias_nodes: targets from a reduced vocabulary, the anchor path a straight one- or two-step path, the name given or not
+AliasTargets(d) == {<<Seg("KEY", k)>> : k \in StrKeysOf(d) \cup {"zz"}} \cup {<<Seg("INDEX", k)>> : k \in {"0", "1"}}
+                   \cup {<<Seg("MATCH_ALL", "")>>, <<Seg("ANCHOR", "A")>>, <<Seg("TRAVERSE", "")>>}
+                   \cup {<<Seg("KEY", k1), Seg("INDEX", "0")>> : k1 \in StrKeysOf(d)}
+AnchorPaths(d) == {<<Seg("KEY", k)>> : k \in StrKeysOf(d) \cup {"zz"}} \cup {<<Seg("INDEX", k)>> : k \in {"0", "1"}} \cup {<<Seg("MATCH_ALL", "")>>}
+                  \cup {<<Seg("KEY", k1), Seg("INDEX", "0")>> : k1 \in StrKeysOf(d)} \cup {<<Seg("KEY", k1), Seg("KEY", k2)>> : k1, k2 \in StrKeysOf(d)}
+AliasEvents(d) == IF ~AliasOps THEN {} ELSE
+  {[op |-> "alias", segs |-> p, t |-> "", v |-> "", asegs |-> q, name |-> n] : p \in AliasTargets(d), q \in AnchorPaths(d), n \in {"", "A", "B"}}
+Events(d) == BaseEvents(d) \cup AliasEvents(d)
 
 \* an event is worth a transition when it is in the modelled domain and either changes the document or is refused
-Interesting(s, e) == LET n == EStep(s, e) IN n.out \in {"ok", "nodoc"} /\ (n.out = "nodoc" \/ ~PlainEq(n.doc, s.doc))
+Interesting(s, e) == LET n == EStep(s, e) IN
+  \/ n.out \in {"ok", "nodoc"} /\ (n.out = "nodoc" \/ ~PlainEq(n.doc, s.doc) \/ (e.op = "alias" /\ n.doc # s.doc))
+  \/ e.op = "alias" /\ n.out = "yperr"        \* refusals of alias_nodes (several anchors, a name in use, ...) are replayed too
 
 Edit == /\ phase = "edit" /\ Len(hist) < EditDepth
-        /\ \E e \in Events(cur) :
+        /\ (AliasOps /\ Len(hist) > 0) => hist[1].out = "ok"      \* nothing follows a refused alias_nodes (the document is unchanged)
+        /\ \E e \in (IF AliasOps /\ Len(hist) > 0 THEN BaseEvents(cur) ELSE IF AliasOps THEN AliasEvents(cur) ELSE Events(cur)) :   \* alias mode: one alias_nodes, then sets / deletes
              LET n == EStep([doc |-> cur, out |-> "ok"], e) IN
              /\ Interesting([doc |-> cur, out |-> "ok"], e)
              /\ cur' = n.doc
-             /\ hist' = Append(hist, [op |-> e.op, dot |-> Write(e.segs, "."), sl |-> Write(e.segs, "/"), t |-> e.t, v |-> e.v, out |-> n.out])
+             /\ hist' = Append(hist, [op |-> e.op, dot |-> Write(e.segs, "."), sl |-> Write(e.segs, "/"), t |-> e.t, v |-> e.v, out |-> n.out,
+                                      adot |-> Write(e.asegs, "."), name |-> e.name])
         /\ UNCHANGED <<doc, open, fresh, phase, doc0>>
 
 Next == Build \/ StartEdit \/ StartCurated \/ Edit
@@ -107,6 +122,13 @@ CreateKeepsOld == [][(phase = "edit" /\ Len(hist') > Len(hist) /\ hist'[Len(hist
                      \* every old scalar value is still present, in order (the old document is a subsequence)
                      LET old == SelectSeq(cur, LAMBDA n : n.k = "s") new == SelectSeq(cur', LAMBDA n : n.k = "s") IN
                      Len(new) >= Len(old)]_evars
+
+\* alias_nodes: data change only at the targets, which then read the anchor's value; the anchor keeps its value
+AliasFrame == [][(phase = "edit" /\ Len(hist') > Len(hist) /\ hist'[Len(hist')].op = "alias" /\ hist'[Len(hist')].out = "ok") =>
+                  /\ AnchorsWellFormed(cur')
+                  /\ \E nm \in AnchorNamesOf(cur') : Cardinality({i \in 1..Len(cur') : cur'[i].anchor = nm}) >= 1]_evars
+AliasRefusal == [][(phase = "edit" /\ Len(hist') > Len(hist) /\ hist'[Len(hist')].op = "alias" /\ hist'[Len(hist')].out = "yperr") =>
+                  PlainEq(cur', cur)]_evars
 
 Emit == (phase = "edit" /\ Len(hist) > 0) =>
   CSVWrite("%1$s", <<ToJson([doc0 |-> doc0, hist |-> hist, final |-> cur])>>, IOEnv.CASES_OUT)
